@@ -464,6 +464,7 @@ class Machine:
         self.violations = []
         self.vcount = {}
         self.vcfg = {}  # violation key -> set of tuples of options that were on
+        self.vdef = {}  # violation key -> {True, False}: default-options reference still alive / already rejecting
         self.veof = {}  # violation key -> {True, False}: seen on paths with / without an observed end of input
         self.stats = {"steps": 0, "forks": 0}
         self.obl = {}  # obligation kind -> [checked, discharged]
@@ -486,6 +487,7 @@ class Machine:
         n = self.vcount.get(key, 0)
         self.vcount[key] = n + 1
         self.veof.setdefault(key, set()).add(bool(st.flags.get("eof_seen")))
+        self.vdef.setdefault(key, set()).add(bool(st.flags.get("$dflt_alive", True)))
         cf = self.vcfg.setdefault(key, set())
         if len(cf) < 256:
             cf.add(tuple(sorted(k[4:] for k, val in st.env.items() if k.startswith("cfg:") and val)))
@@ -1415,6 +1417,8 @@ class Machine:
         if k == "word":
             if bits == v[2]:
                 return ("word", v[1], bits, signed)
+            from . import lanes
+            return mk_int(lanes.word_value(self, st, v)[1], bits, signed)
         raise Unanalysable("integer cast of %s" % k)
 
     def cast(self, st, fr, r):
